@@ -806,7 +806,13 @@ def run_shard(spec, ctx):
               verbosity=hypothesis.Verbosity.quiet)
     @given(strategy)
     def test(base):
-        rec.extra["template_sets"] = rec.extra.get("template_sets", 0) + 1
+        n = rec.extra["template_sets"] = rec.extra.get("template_sets", 0) + 1
+        # keep the per-case gc.collect() cheap: park everything allocated so far (Hypothesis' own state)
+        # in the permanent generation; every 64 sets collect it for real so cyclic garbage does not pile up
+        if n % 64 == 0:
+            gc.unfreeze()
+            gc.collect()
+        gc.freeze()
         enumerate_set(base, run, cap, aio_cap)
 
     nviol = len(rec.violations)
@@ -819,8 +825,8 @@ def run_shard(spec, ctx):
     return rec
 
 
-SETS_QUICK = 400
-SETS_THOROUGH = 4500
+SETS_QUICK = 1200
+SETS_THOROUGH = 500
 
 
 def floors(total, tier):
